@@ -13,6 +13,7 @@ import numpy as np
 
 from ..core import describe, import_library
 from ..gen import engines as E
+from ..env import ENVIRONMENTS, Held, excusable, hostile, observe
 from ..probe import Probe, Reach, plain_function
 
 WORKERS = {"quick": 1, "thorough": 16}
@@ -140,6 +141,9 @@ class ReplayMonitor:
             return
         ctx.hit("compare:batch vs float")
         interesting = False
+        # (in single precision the two modes legitimately differ by rounding: NumPy combines a float32 *scalar* with a Python
+        # float in double precision and a float32 *array* with it in single precision)
+        narrow = np.dtype(fl.settings.float_type) != np.dtype(np.float64)
         for k, ov in enumerate(engine.output_variables):
             got = rows_of(ov.value)
             if len(got) == 1 and n > 1:
@@ -151,7 +155,7 @@ class ReplayMonitor:
             for j in range(n):
                 want = per_row[j]["values"][k]
                 if not feq(got[j], want):
-                    if abs(got[j] - want) <= 1e-9 * max(1.0, abs(want)):
+                    if abs(got[j] - want) <= (1e-9 if not narrow else 2e-5) * max(1.0, abs(want)):
                         ctx.hit("ulp_diff:output value")
                         continue
                     mech = "NaN row" if math.isnan(got[j]) or math.isnan(want) else "value"
@@ -172,7 +176,7 @@ class ReplayMonitor:
                         return
                     g = float(dd[j] if dd.size > 1 else dd[0])
                     if act.term.name != name or not feq(g, d):
-                        if act.term.name == name and abs(g - d) <= 1e-12:
+                        if act.term.name == name and abs(g - d) <= (1e-12 if not narrow else 2e-5):
                             ctx.hit("ulp_diff:degree")
                             continue
                         ctx.violation("an activated degree of the batch differs from float mode", dict(case, variable=ov.name, row=j, term=name), d, g)
@@ -186,7 +190,9 @@ class ReplayMonitor:
             if len(texts) == 1 and n > 1:
                 texts = texts * n
             ctx.hit("compare:fuzzy_value texts")
-            if len(texts) != n or any(texts[j] != per_row[j]["text"][k] for j in range(n)):
+            if narrow:
+                ctx.hit("note:written fuzzy outputs not compared in single precision")
+            elif len(texts) != n or any(texts[j] != per_row[j]["text"][k] for j in range(n)):
                 j = next((j for j in range(min(n, len(texts))) if texts[j] != per_row[j]["text"][k]), 0)
                 ctx.violation("the written fuzzy output (fuzzy_value) of the batch differs from float mode", dict(case, variable=ov.name, row=j, rows_expected=n, rows_got=len(texts)), per_row[j]["text"][k], texts[j] if j < len(texts) else None)
                 return
@@ -271,9 +277,11 @@ def run(ctx):
     )
     ctx.assumptions += ["the oracle is the library itself in float mode, run on a deep copy taken at the entry of the batch call (Engine.copy correctness is C13's business)", "exact comparison; pairs within 1e-9 relative are counted as ulp_diff (none expected)"]
     funcs = {"Engine.process": fl.Engine.process, "OutputVariable.defuzzify": fl.OutputVariable.defuzzify, "Activated.membership": fl.Activated.membership, "Engine.input_values.setter": plain_function(fl.Engine, "input_values"), "scalar": fl.library.scalar}
+    ctx.excuse = lambda mechanism, observed, note: excusable(observed)
     with Reach(funcs) as reach, Probe() as probe:
         mon = ReplayMonitor(ctx, fl)
         mon.install(probe)
+        held = Held(ctx)
         for i, rnd in ctx.cases("engines", nengines):
             spec = E.gen_engine(rnd, activations=("General",), d=rnd.choice([1, 3, 3]), resolutions=[1, 2, 5, 10, 37, 100, 1000], free_weights=True, share_defuzzifier=True, routes=True)
             if rnd.random() < 0.12:
@@ -286,12 +294,19 @@ def run(ctx):
                 continue
             history = []
             n = 0
+            # one engine in eight lives in a process whose state is not the default one: warnings are errors, the library logs at
+            # DEBUG, other NumPy print options, or the library computes in single precision (both modes do, then)
+            envname = (ENVIRONMENTS + ["float32"])[(i // 8) % (len(ENVIRONMENTS) + 1)] if i % 8 == 5 else None
+            held.clear()
             for h in range(ctx.scale(3, 4) if rnd.random() < 0.7 else 1):
                 n = n if (n > 1 and rnd.random() < 0.45) else rnd.choice([1, 2, 2, 3, 5, 8, maxn])
                 rows = batch_rows(rnd, spec, n)
                 arr = np.array(rows, dtype=float)
                 way = rnd.choice(["per-variable", "matrix", "matrix"])
-                try:
+                if envname == "float32":
+                    way = "per-variable"
+                with hostile(fl, envname, ctx):
+                  try:
                     if h > 0 and n > 1 and rnd.random() < 0.4 and all(isinstance(v.value, np.ndarray) and np.shape(v.value) == (n,) and not v.lock_range and v.value.flags.writeable for v in engine.input_variables):
                         for k, v in enumerate(engine.input_variables):
                             v.value[:] = arr[:, k]  # the same array objects, refilled in place
@@ -309,6 +324,8 @@ def run(ctx):
                             v.value = arr[:, k]
                         ctx.hit("event:input variables given views of one buffer")
                     elif way == "per-variable" or n == 1 and rnd.random() < 0.5:
+                        if envname == "float32":
+                            mon.given[id(engine)] = [arr[:, k].copy() for k in range(arr.shape[1])]
                         for k, v in enumerate(engine.input_variables):
                             v.value = arr[:, k] if n > 1 else float(arr[0, k])
                     elif n == 1 and rnd.random() < 0.3:
@@ -317,12 +334,42 @@ def run(ctx):
                         engine.input_values = arr[0, :] if n == 1 else arr[:, 0]  # 1-D
                     else:
                         engine.input_values = arr
+                    if rnd.random() < 0.2:
+                        observe(fl, engine, rnd, ctx, None)
                     engine.process()
-                except Exception:
+                  except Exception:
                     pass  # judged by the monitor
+                # what the previous call handed out (output values) stays what it was
+                held.check("a later process()")
+                for ov in engine.output_variables:
+                    held.keep("OutputVariable.value", ov.value)
                 history.append({"way": way, "rows": rows[:4]})
             if i < 2:
                 ctx.sample("history", {"fll": describe(engine), "history": history, "outputs": [ov.value for ov in engine.output_variables]})
+        # single precision and input values whose small differences matter (large readings, cancelling coefficients): both
+        # modes see the same input values
+        for i, rnd in ctx.cases("single precision, cancelling inputs", ctx.scale(10, 200)):
+            c = rnd.choice([1.0, 2.0, 0.5])
+            e = fl.Engine(
+                "ts",
+                input_variables=[fl.InputVariable("a", minimum=0.0, maximum=1e9, terms=[fl.Ramp("on", -1.0, 0.0)]), fl.InputVariable("b", minimum=0.0, maximum=1e9, terms=[fl.Ramp("on", -1.0, 0.0)])],
+                output_variables=[fl.OutputVariable("y", minimum=-1e6, maximum=1e6, defuzzifier=fl.WeightedAverage(), terms=[])],
+                rule_blocks=[fl.RuleBlock("rb", conjunction=fl.Minimum(), disjunction=fl.Maximum(), implication=fl.Minimum(), activation=fl.General(), rules=[fl.Rule.create("if a is on then y is diff")])],
+                load=False,
+            )
+            e.output_variables[0].terms.append(fl.Linear("diff", [c, -c, rnd.choice([0.0, 1.0])], e))
+            e.rule_blocks[0].load_rules(e)
+            base = float(2 ** rnd.choice([24, 25, 26, 30]))
+            A = np.array([base + rnd.choice([1.0, 3.0, 5.0, 7.0]) for _ in range(4)])
+            B = np.array([base + rnd.choice([0.0, 2.0, 4.0]) for _ in range(4)])
+            with hostile(fl, rnd.choice(["float32", "float32", "default"]), ctx):
+                mon.given[id(e)] = [A.copy(), B.copy()]
+                e.input_variables[0].value, e.input_variables[1].value = A, B
+                try:
+                    e.process()
+                except Exception:
+                    pass
+            ctx.hit("workload:single precision with cancelling inputs")
         # a batch of several thousand rows (slicing / chunking fast paths) on a small engine
         for i, rnd in ctx.cases("large batch", ctx.scale(1, 6)):
             spec = E.gen_engine(rnd, activations=("General",), d=3, resolutions=[5, 10], max_inputs=2, max_rules=3, max_depth=1, free_weights=True, flags=False)
@@ -345,6 +392,7 @@ def run(ctx):
         probe.report(ctx)
         reach.report(ctx)
     ctx.require("workload:output variable mixing term families under an Automatic weighted defuzzifier", "workload:large batch", "event:input variables given views of one buffer", "compare:fuzzy_value texts", "compare:inputs as the workload handed them over")
+    ctx.require("workload:single precision with cancelling inputs", "environment:float32", "law:values handed out earlier are left alone", *[f"environment:{e}" for e in ENVIRONMENTS])
     ctx.require("hook:Engine.process", "compare:batch vs float", "hook:Engine.input_values.setter", "input_values:2d", "input_values:1d", "input_values:0d", "compare:output_values readable", "batch_size:2-8")
     for d in E.INTEGRAL + ["WeightedAverage", "WeightedSum"]:
         ctx.require(f"defuzzifier:{d}")
